@@ -693,6 +693,8 @@ func (g *Gtp5g) CreateFAR(lSeid uint64, req *ie.IE) error {
 func (g *Gtp5g) UpdateFAR(lSeid uint64, req *ie.IE) error {
 	var farid uint64
 	var attrs []nl.Attr
+	var act report.ApplyAction
+	var hasAct bool
 
 	ies, err := req.UpdateFAR()
 	if err != nil {
@@ -711,7 +713,6 @@ func (g *Gtp5g) UpdateFAR(lSeid uint64, req *ie.IE) error {
 			if err != nil {
 				return err
 			}
-			var act report.ApplyAction
 			err = act.Unmarshal(b)
 			if err != nil {
 				return err
@@ -720,7 +721,7 @@ func (g *Gtp5g) UpdateFAR(lSeid uint64, req *ie.IE) error {
 				Type:  gtp5gnl.FAR_APPLY_ACTION,
 				Value: nl.AttrU16(act.Flags),
 			})
-			g.applyAction(lSeid, int(farid), act)
+			hasAct = true
 		case ie.UpdateForwardingParameters:
 			xs, err := i.UpdateForwardingParameters()
 			if err != nil {
@@ -746,6 +747,11 @@ func (g *Gtp5g) UpdateFAR(lSeid uint64, req *ie.IE) error {
 				Value: nl.AttrU8(v),
 			})
 		}
+	}
+
+	// the FAR ID child may follow the Apply Action child: act on the FAR only once the whole IE has been read
+	if hasAct {
+		g.applyAction(lSeid, int(farid), act)
 	}
 
 	oid := gtp5gnl.OID{lSeid, farid}
